@@ -52,3 +52,266 @@ SPECS["C13"] = {
     "assumptions": ["one op (arrival, close, poll) is atomic; channels are closed by dropping them on the "
                     "thread that polls the listener"],
 }
+
+SPECS["C19"] = {
+    "pid": "C19",
+    "harness": "c19",
+    "coq_targets": ["Properties/C19.vo", "Checks/C19check.vo"],
+    "cases_header": HDR.format(mods="Hooks Checks.C19check") + "Local Open Scope N_scope.\n",
+    "case_term": lambda c: f"({c['cfg']}, {c['obs']})",
+    "quick": {"count": 3000},
+    "thorough": {"count": 30000},
+    "sweeps": [[]],
+    "nontrivial": lambda c: any(t in c["tags"] for t in (
+        "failure-skipped-later-hooks", "failure-after-earlier-hooks", "after-rewrote-result",
+        "after-saw-error", "depth3")),
+    "rule": "one script = one composition of the real wrappers (outermost first over {B .before(obj), A .after(closure), "
+            "C .before_and_after(obj), L before().then(..).then_fn(..).serving(s), M s.before(list)}) + scripted hooks "
+            "(context keep/set/wrapping add; fail never/always/ctx>=t/req=q; result keep/set/map/recover/fail/ctx) + one "
+            "serve() call; half of the scripts are nestings of depth 0..3 (lists 0..2), half chains of length 0..5 under "
+            "an optional outer wrapper, 60% with a designated failing before-hook at a uniformly drawn position; every "
+            "nesting is its own statically nested Rust type (type-level recursion, 156 shapes + chain family); "
+            "non-trivial = a before-hook failed with hooks before or after it, or an after-hook saw an error or rewrote "
+            "the result, or depth 3; distinct = distinct script text; thorough adds the bounded-exhaustive family: all "
+            "156 nestings of depth<=3 with no failure and with each before-hook failing in turn, and chains 0..5 (L and M "
+            "forms, under no/B/A/C outer wrapper) with every failing position",
+    "trusted_base": COMMON_TB + [
+        "modelled, not verified: the part of context::Context a hook changes is one u64 (trace_context.span_id); "
+        "hooks are scripted effects, hook-internal state (&mut self) carried from the before part to the after part "
+        "of a before-and-after hook is not modelled; one serve() call per composition (serve consumes self)",
+    ],
+    "level_text": "Theorems C19_monitor, C19_before_order, C19_nest_eq_chain, C19_then_appends/_then_builds/_serving, "
+                  "C19_after_once, C19_after_sees_inner_error, C19_before_after, C19_handler_at_most_once: for every tree "
+                  "of Before/BeforeList/After/BeforeAfter wrappers (any nesting and depth, by structural induction), every "
+                  "chain length and failing position, every initial context, request and scripted hook behaviour, the model "
+                  "of request_hook/*.rs runs before-hooks in chain order on the context left by their predecessors, stops at "
+                  "the first failure without invoking the handler and returns its error, runs each after-hook exactly once "
+                  "after what it wraps (including an inner before-hook's error) and returns what it left, and skips the after "
+                  "part of a combined hook exactly when its before part fails, otherwise showing it the context the before "
+                  "part produced. The model is tied to the code by running generated compositions of the real wrapper types "
+                  "(every nesting to depth 3, chains 0..5) with recording hooks and comparing events and result inside Coq; "
+                  "the monitor proved correct for the model is also evaluated on the implementation's traces.",
+    "level_note": "Trusted: Coq kernel, vm_compute, the Rust harness and Python driver. Modelled not verified: the context "
+                  "as one u64 field; hooks as scripted effects without internal state; futures that are immediately ready. "
+                  "The statement does not say which context a plain after-hook sees; the model (and the code) give it the "
+                  "wrapper's own copy, unaffected by inner before-hooks, and the monitor leaves it unconstrained. "
+                  "Correspondence is sampled (bounded-exhaustive to depth 3 in thorough), not proved.",
+    "design_ref": "DESIGN.md section 6 (C19)",
+    "assumptions": ["hook futures and the handler future complete without suspending in between (each serve body is "
+                    "sequential code, so suspension points do not reorder effects)"],
+}
+
+SPECS["C20"] = {
+    "pid": "C20",
+    "harness": "c20",
+    "coq_targets": ["Properties/C20.vo", "Checks/C20check.vo"],
+    "cases_header": HDR.format(mods="Stubs Checks.C20check") + "Local Open Scope N_scope.\n",
+    "case_term": lambda c: f"({c['cfg']}, {c['ops']}, {c['obs']})",
+    "quick": {"count": 1500},
+    "thorough": {"count": 20000},
+    "sweeps": [[]],
+    "nontrivial": lambda c: any(t in c["tags"] for t in (
+        "rr-concurrent-burst", "rr-cycled-twice", "ch-repeated-request", "retry-retried",
+        "retry-cap-reached")),
+    "rule": "one script = one stub configuration + a list of operations on the real stub over recording mock backends: "
+            "40% RoundRobin (b in 1..8; single calls and bursts from 1-8 OS threads, each thread with its own clone of "
+            "the stub, released by a barrier; for a burst only the per-backend counts are compared), 30% "
+            "ConsistentHash::with_hasher (b in 1..16; hashers constant / identity / affine / FNV-1a / fold / std "
+            "RandomState and BuildHasherDefault<DefaultHasher>, the two std ones tabulated by the harness from a clone; "
+            "requests drawn from a small pool so that they repeat, plus values near 2^64), 30% Retry (policies never / "
+            "always / on-error / on-error-below-m / below-m / by-attempt table / Ok-below-v over inner result scripts of "
+            "length 0..8; a cap on inner calls cuts non-terminating policies); non-trivial = a concurrent burst, or the "
+            "cursor went round all backends twice, or a request was repeated, or at least one retry happened or the cap "
+            "was hit; distinct = distinct script text; thorough adds: b=1..8 x k<=3b sequential calls and bursts from 1..8 "
+            "threads, every hasher x b=1..5 x 34 calls, every inner result script of length <=4 over 4 results x 8 policies",
+    "trusted_base": COMMON_TB + [
+        "modelled, not verified: AtomicUsize::fetch_add as one atomic step on a 64-bit counter (usize = u64); the "
+        "std Hash impl of u64 (write_u64 -> write of the 8 native-endian bytes); RangeFrom<u32>::next (successor "
+        "computed before the value is handed out; panics at u32::MAX with overflow checks, wraps otherwise)",
+    ],
+    "level_text": "Theorems C20_monitor, C20_round_robin_balanced, C20_rr_interleaving, C20_consistent_hash_valid/"
+                  "_deterministic, C20_retry (+ C20_round_robin_wrap_refuted, C20_retry_wrap_refuted showing the bounds are "
+                  "necessary): in the model of load_balance.rs and retry.rs, for every backend count b >= 1 and every n <= "
+                  "2^64 next() calls in any interleaving of atomic fetch_adds, any two backends' counts differ by at most "
+                  "one; for every hasher function the consistent-hash pick is h(req) mod b < b and a function of the "
+                  "request; for every retry policy and inner-stub behaviour whose first declined attempt is k < 2^32 (2^32-1 "
+                  "with overflow checks), Retry::call makes exactly k inner calls with the same request, shows the policy "
+                  "(result j, attempt j) for j = 1..k and returns the k-th result unchanged. The model is tied to the code "
+                  "by running generated operation lists on the real RoundRobin (also from 1-8 OS threads), "
+                  "ConsistentHash::with_hasher (custom and std BuildHashers) and Retry over recording mocks and comparing "
+                  "every observation inside Coq; the monitor proved correct for the model is also evaluated on the "
+                  "implementation's traces.",
+    "level_note": "Trusted: Coq kernel, vm_compute, the Rust harness and Python driver. Modelled not verified: atomicity of "
+                  "fetch_add (Relaxed ordering is enough for a single counter; finer-grained memory-model effects are outside "
+                  "the model), std's u64 Hash impl and RangeFrom<u32>. The cursor cannot be preset, so the real code is only "
+                  "driven from cursor 0 for a few thousand calls; the 2^64 and 2^32 wraps are theorems about the model only "
+                  "(refutation lemmas), not observed. ConsistentHash::new (hidden RandomState) is not driven; with_hasher "
+                  "with a RandomState clone is. Correspondence is sampled, not proved.",
+    "design_ref": "DESIGN.md section 6 (C20)",
+    "assumptions": ["fewer than 2^64 round-robin calls per stub and fewer than 2^32 (2^32-1 with overflow checks) "
+                    "attempts per Retry::call; each fetch_add is one atomic step"],
+}
+
+
+# ---------------------------------------------------------------------------------------------
+# WIRE and TIME layer: C15, C07, C16 (models Wire.v / Framing.v / Shipped.v / Time.v; the
+# translator tools/gen re-derives coq/Generated.v from /repo at the start of every run)
+def wire_translator():
+    """spec["translator"]: run tools/gen; an error here is an infrastructure failure."""
+    import os
+    import subprocess
+    from . import vcheck as V
+    p = subprocess.run([os.path.join(V.ROOT, "tools", "gen")], stdout=subprocess.PIPE,
+                       stderr=subprocess.STDOUT, text=True, timeout=1800)
+    if p.returncode != 0:
+        raise V.Infra("translator tools/gen failed:\n" + p.stdout[-4000:])
+
+
+WIRE_HDR = ("From Coq Require Import String Ascii.\nFrom Coq Require Import List NArith ZArith Bool.\n"
+            "Import ListNotations.\nFrom TarpcV Require Import Base Schema Wire Framing {mods}.\n"
+            "Local Open Scope N_scope.\n")
+
+WIRE_TB = [
+    "translator tools/gen + the harness's recording serde::Serializer / probing serde::Deserializer "
+    "(harness/src/shape.rs): they produce coq/Generated.v, against which the model's shapes, tables and "
+    "constants are checked by computation (coq/GenChecks)",
+    "modelled, not verified (third-party): bincode 1.3 DefaultOptions integer/container encodings, serde_json's "
+    "data-model mapping (value trees), tokio_util LengthDelimitedCodec + FramedImpl read loop, tokio/futures mpsc "
+    "queues, std::time arithmetic, tokio_util DelayQueue's range, humantime's RFC 3339 range",
+]
+
+SPECS["C15"] = {
+    "pid": "C15",
+    "harness": "c15",
+    "translator": wire_translator,
+    "coq_targets": ["Properties/C15.vo", "Checks/C15check.vo", "GenChecks/C15.vo"],
+    "gen_obligations": ["gen_client_message_shape", "gen_response_shape", "gen_client_message_shape_wf",
+                        "gen_response_shape_wf", "gen_kind_types", "gen_kind_ser_table", "gen_kind_de_table"],
+    "cases_header": WIRE_HDR.format(mods="Shipped Checks.C15check"),
+    "case_term": lambda c: f"({c['cfg']}, {c['ops']}, {c['obs']})",
+    "quick": {"count": 160},
+    "thorough": {"count": 4000},
+    "sweeps": [[]],
+    "shrink_budget": 40,
+    "nontrivial": lambda c: any(t in c["tags"] for t in (
+        "fragmented-read", "partial-write", "read-pending", "write-pending", "cut", "hand-written",
+        "unportable-kind", "full", "end-after-drop", "large-body")),
+    "rule": "one script = one direction of one shipped transport: codec in {bincode, json} through the real "
+            "tarpc::serde_transport::new(Framed::new(io, LengthDelimitedCodec::new()), codec) over a scripted in-memory "
+            "byte stream (cyclic write-acceptance pattern and cyclic read-chunk pattern: byte-at-a-time, frame-straddling, "
+            "coalesced, with Pending results in between; optionally the stream is cut inside its last frame), or "
+            "transport::channel::{bounded(1..3), unbounded}; 1..7 messages (requests/cancels or ok/err responses; ids and "
+            "durations biased to 0, 250, 251, 2^16, 2^32, 2^64-1; every stable io::ErrorKind; empty, multi-byte UTF-8, "
+            "JSON-escape-heavy, 250..300-byte and occasionally 64 KiB+ bodies), a third of the JSON scripts and a fifth of "
+            "the bincode scripts with one hand-written frame payload (optional fields omitted, reordered/unknown/duplicate "
+            "members, non-canonical varints, trailing bytes); compared per message: the serde calls of the real Serialize "
+            "impl (recording serializer) against the model's event list, the bytes on the stream against the model's "
+            "frame, every item the reading end yields, and the end of the stream; non-trivial = reads or writes were "
+            "fragmented / Pending, or the stream was cut, or a hand-written payload / non-portable kind / full bounded "
+            "channel / end-after-drop / 64 KiB+ body was involved; distinct = distinct script text; thorough adds the "
+            "bounded-exhaustive family: every stable io::ErrorKind x {bincode, json, bounded, unbounded}, every boundary "
+            "id x 4 chunking classes x 4 transports, every cut position 1..39 (except the documented header-only "
+            "position 4) of a two-frame stream, and 70 000-byte and 1 MiB bodies",
+    "trusted_base": COMMON_TB + WIRE_TB + [
+        "JSON text: the model prints value trees with its own compact printer (compared byte for byte with "
+        "serde_json::to_vec through the real transport); it has no text parser, so for the reading direction the model "
+        "decodes the value tree of the frame at the same position (hand-written payloads: the tree produced by the "
+        "harness's own small order-preserving JSON parser)",
+    ],
+    "level_text": "Theorems C15_bincode_roundtrip(_response), C15_json_tree_roundtrip(_response): decode (encode m) = Some m "
+                  "for every ClientMessage and Response value (all variants, every u64 id, every body, every trace context, "
+                  "every Duration, every error kind up to the documented degradation), derived from two generic theorems "
+                  "(C15_*_roundtrip_schema) that hold for ANY serde shape satisfying the generated side condition schema_wf; "
+                  "C15_kinds_degrade; C15_optional_cancel_trace / C15_optional_deadline / C15_unknown_fields_ignored; "
+                  "C15_framing_any_chunking (for all payload lists and ALL splittings of the byte stream into chunks the "
+                  "incremental decoder yields exactly the frames in order, then end-of-stream), C15_framing_truncated_tail, "
+                  "C15_framing_oversize, C15_framing_total; C15_fifo / C15_fifo_order for both in-memory channels at every "
+                  "capacity and op list. The shapes and tables the theorems are about are re-derived from /repo on every run "
+                  "(recording serializer, probing deserializer, parsed tables) and checked equal to the model's by "
+                  "computation; the model's events, bytes and decoded items are compared with the real codecs inside Coq on "
+                  "every generated script, and the monitor is evaluated on the implementation's traces.",
+    "level_note": "Trusted: Coq kernel, vm_compute, translator, Rust harness, Python driver. Modelled not verified: the "
+                  "third-party encodings listed in the trusted base. Partial: serde_json's TEXT layer (printer/parser) is "
+                  "only differentially tested (model printer vs real bytes; no Gallina parser); UTF-8 validity of bodies is "
+                  "not modelled (the model decoder accepts any bytes); TCP/UDS sockets are represented by an arbitrary "
+                  "scripted byte stream. Boundary (refutation lemma C15_truncated_header_refuted, script in the design "
+                  "notes): a stream cut exactly after a 4-byte length header reads as a clean end-of-stream, not an error "
+                  "(tokio-util decode_eof); the generator avoids that one cut position, the monitor does not excuse it. "
+                  "Correspondence is sampled, not proved.",
+    "design_ref": "DESIGN.md section 6 (C15)",
+    "assumptions": ["bodies are valid UTF-8 strings shorter than 2^64 bytes; frames fit LengthDelimitedCodec's default "
+                    "8 MiB limit (larger ones are refused by the encoder, which the model reproduces)",
+                    "virtual clock frozen during a script, so the remaining Duration written equals the one chosen"],
+}
+
+SPECS["C17"] = {
+    "pid": "C17",
+    "harness": "c17",
+    "coq_targets": ["Properties/C17.vo", "Checks/C17check.vo"],
+    "cases_header": ("From Coq Require Import String.\nFrom Coq Require Import List NArith ZArith Bool.\n"
+                     "Import ListNotations.\nFrom TarpcV Require Import Base Macro Checks.C17check.\n"
+                     "Local Open Scope N_scope.\n"),
+    "case_term": lambda c: f"({c['cfg']}, {c['ops']}, {c['obs']})",
+    "quick": {"count": 260},
+    "thorough": {"count": 2000},
+    "sweeps": [[]],
+    "run_timeout": 2400,
+    "shrink_budget": 10,
+    "max_shrinks": 2,
+    "nontrivial": lambda c: ("compiled" in c["tags"] and ("same-typed-siblings" in c["tags"] or "same-typed-args" in c["tags"]))
+                            or "rejected-by-macro" in c["tags"] or "rejected-by-rustc" in c["tags"],
+    "rule": "one script = one service definition (service ident, visibility, derive options, 0..6 methods each with "
+            "0..5 arguments, return type, #[cfg] and other attributes), generated from one splitmix64 stream: three in "
+            "five definitions give all methods one signature, names come from pools with leading/trailing/double "
+            "underscores, mixed case, raw identifiers, names of generated locals (req, request, resp, msg, context, ...); "
+            "one in seven is a collision or a look-alike of one (same camel-case variant, repeated/ctx/self argument, "
+            "new/serve/r#new/r#serve, Self, __, derive conflicts, no active method). Each definition is (A) checked by "
+            "stable rustc, (B) expanded by nightly -Zunpretty=expanded and read with syn into the model's item structure, "
+            "(C) compiled on stable into a runner where every enabled method is called once with pairwise-distinct "
+            "arguments against a recording implementor, plus one wrong-variant probe. non-trivial = compiled with two "
+            "same-signature methods or two same-typed arguments (a mis-pairing or reordering would type-check), or a "
+            "definition that was rejected; distinct = distinct script text; thorough adds all pairs from 12 method names "
+            "and from 9 argument names",
+    "trusted_base": COMMON_TB + [
+        "rustc's semantics of the generated items is the small one written in coq/Macro.v (names resolve by text "
+        "ignoring r#, arguments by position, first matching arm, inner bindings shadow, the listed duplicate-definition "
+        "errors): modelled, not verified; compared with rustc only through the sampled definitions (accept/reject "
+        "verdict of stable rustc, behaviour of the compiled glue)",
+        "the syn-based reader that abstracts rustc's pretty-printed expansion into Macro.generated (harness/src/c17.rs); "
+        "nightly rustc's -Zunpretty=expanded printer (drops r# on non-reserved identifiers, normalised by Macro.shown)",
+        "attributes other than #[cfg] pass through the macro unmodelled; types are opaque ids; identifiers are ASCII",
+    ],
+    "level_text": "Theorems C17_glue_correct / C17_name_correct / C17_rejected_not_miscompiled / C17_wrong_variant_not_ok / "
+                  "C17_monitor (Properties/C17.v, all closed under the global context): for EVERY service definition that the "
+                  "model of #[tarpc::service] (gen, one Gallina function per generator fn, snake_to_camel over ASCII, the "
+                  "derive-option parser, the new/serve checks) accepts and whose generated items contain no definition rustc "
+                  "refuses, every enabled method m, every implementor, context and argument vector: the generated client fn "
+                  "of m hands the stub the caller's context and a request named '<Service>.<method>' (identifiers as written, "
+                  "raw prefix included), the generated server invokes exactly the implementor's m with exactly those "
+                  "arguments in order and that context, and the caller receives that invocation's result; a response of any "
+                  "other variant reaches the fallback arm, never Ok; every collision (same variant name, repeated / ctx / "
+                  "self argument, new / serve raw or not) ends in a macro error or a duplicate definition, never in an "
+                  "accepted program. The semantics of the generated items (rustc) is the small one written in coq/Macro.v. "
+                  "The model is tied to the real macro on every run by translation validation: for each generated "
+                  "definition `gen def = items read from rustc's expansion of def` is checked by computation inside Coq, "
+                  "the accept/reject verdict and error classes of stable rustc are compared with the model's, the "
+                  "definitions are compiled and executed against a recording implementor and the recorded (method, "
+                  "arguments, context, request name, returned value) compared with the model's prediction, and the monitor "
+                  "is evaluated on the expansion and on the recorded runs.",
+    "level_note": "Trusted: Coq kernel, vm_compute, the Rust harness (generator, syn reader of expansions, runner "
+                  "generator), nightly's expansion printer, Python driver. Modelled not verified: rustc's name resolution, "
+                  "argument passing, match semantics and duplicate-definition errors for items of the generated shape "
+                  "(coq/Macro.v parts 3-4). Unmodelled: attributes other than #[cfg] (passed through), types (opaque ids; "
+                  "rustc's type checking is not used by the proof), visibility, non-ASCII identifiers, the serde/derive "
+                  "expansions (only the set of derived traits is compared), Channel/transport plumbing (the runner connects "
+                  "the generated client to the generated server through tarpc's in-process Stub-for-Serve impl). Reading of "
+                  "'<Service>.<method>': the macro keeps r# (C17_name_unraw_refuted documents that the bare-name reading is "
+                  "false: `trait S { async fn r#fn(); }` reports \"S.r#fn\"). A service without an active method, or named "
+                  "like a generic parameter of the generated impls (S), is rejected by rustc (harmless). Correspondence is "
+                  "sampled, not proved.",
+    "design_ref": "DESIGN.md section 6 (C17)",
+    "assumptions": ["the implementor, stub and transport are outside the generated glue: the theorem is about what the "
+                    "client fn hands to its stub and what the serve fn does with what it is handed",
+                    "identifiers are ASCII; cfg predicates are evaluated once per compilation"],
+}
+
